@@ -93,6 +93,23 @@ def build_repo(root, layout, fsync):
     r.close()
 
 
+def _frozen_clock(op):
+    """The exception/retry modes re-execute a scenario and compare with the refs of the first run: an operation that
+    stamps commits with the wall clock must produce the same object ids every time."""
+    import functools
+    import time as _time
+
+    @functools.wraps(op)
+    def w(r):
+        real = _time.time
+        _time.time = lambda: 1_000_000_000.0
+        try:
+            return op(r)
+        finally:
+            _time.time = real
+    return w
+
+
 def scenarios():
     S = {}
 
@@ -302,6 +319,71 @@ def scenarios():
                          author_timestamp=700, author_timezone=0, sign=False)
     S["porcelain add+commit"] = add_and_commit
 
+    def commit_amend(r):
+        # commit --amend: a NEW commit with the old one's parents replaces the branch tip; the old tip stays readable
+        from dulwich import porcelain
+        porcelain.commit(r, message=b"amended", author=ID, committer=ID, commit_timestamp=710, commit_timezone=0,
+                         author_timestamp=710, author_timezone=0, sign=False, amend=True)
+    S["porcelain commit --amend"] = _frozen_clock(commit_amend)
+
+    def reset_hard(r):
+        # reset --hard to an older commit: the branch moves back, the index and the work tree are rewritten
+        from dulwich import porcelain
+        porcelain.reset(r, "hard", r.refs[b"refs/heads/topic"])
+    S["porcelain reset --hard"] = _frozen_clock(reset_hard)
+
+    def notes_add(r):
+        # a note: blob + notes tree + notes commit, then refs/notes/commits created
+        from dulwich import porcelain
+        porcelain.notes_add(r, r.refs[b"refs/heads/master"], b"reviewed\n", author=ID, committer=ID)
+    S["notes_add"] = _frozen_clock(notes_add)
+
+    def branch_and_merge(r):
+        # a side branch with its own commit is merged into master (merge commit: objects, then the ref, then index/work tree)
+        from dulwich import porcelain
+        base = r.refs[b"refs/heads/topic"]   # c1, an ancestor of master in every layout
+        t = _tree(r, {b"a": b"one\n" * 20, b"b": b"bee\n", b"side": b"side work\n"})
+        c = _commit(r, t, [base], b"side", 720)
+        r.refs[b"refs/heads/side"] = c
+        porcelain.merge(r, b"refs/heads/side", message=b"merge side", author=ID, committer=ID)
+    S["porcelain merge (merge commit)"] = _frozen_clock(branch_and_merge)
+
+    def stash_push(r):
+        # stash: the work tree (checked out in PREP) has a staged and an unstaged change; stash writes the index and
+        # work-tree commits, refs/stash with its reflog, then resets index and work tree
+        from dulwich import porcelain
+        with open(os.path.join(r.path, "a"), "ab") as f:
+            f.write(b"local edit\n")
+        with open(os.path.join(r.path, "staged.txt"), "wb") as f:
+            f.write(b"staged content\n" * 5)
+        porcelain.add(r, [os.path.join(r.path, "staged.txt")])
+        porcelain.stash_push(r)
+    S["stash_push"] = _frozen_clock(stash_push)
+
+    def cherry_pick(r):
+        # the side commit (PREP) is replayed on master: new tree + commit, then the ref, index and work tree
+        from dulwich import porcelain
+        porcelain.cherry_pick(r, b"refs/heads/side")
+    S["porcelain cherry_pick"] = _frozen_clock(cherry_pick)
+
+    def rebase(r):
+        # the side branch (PREP; HEAD is on it) is rebased onto master: replayed commit, then refs/heads/side moves
+        from dulwich import porcelain
+        porcelain.rebase(r, b"refs/heads/master")
+    S["porcelain rebase"] = _frozen_clock(rebase)
+
+    def checkout_branch(r):
+        # switch to another branch: work tree and index rewritten, HEAD re-pointed
+        from dulwich import porcelain
+        porcelain.checkout(r, b"topic")
+    S["porcelain checkout(branch)"] = _frozen_clock(checkout_branch)
+
+    def worktree_add(r):
+        # a linked work tree: .git/worktrees/<id>/{HEAD,gitdir,commondir,index}, a new branch ref, files checked out
+        from dulwich.porcelain.worktree import worktree_add as _wa
+        _wa(r, os.path.join(os.path.dirname(r.path.rstrip("/")), "linked-wt"), branch=b"wt-branch")
+    S["worktree_add"] = _frozen_clock(worktree_add)
+
     def lfs_write(r):
         # the LFS object store under .git/lfs (the built-in clean filter stores file contents there)
         from dulwich.lfs import LFSStore
@@ -349,7 +431,28 @@ def _prep_shallow(r):
         rr.close()
 
 
-PREP = {"del_ref(loose shadows packed)": _prep_shadow, "fetch(deepen a shallow clone)": _prep_shallow}
+
+def _prep_checkout(r):
+    """materialise HEAD's tree in the work tree and the index (the repository is built from objects only)"""
+    from dulwich import porcelain
+    porcelain.reset(r, "hard", b"HEAD")
+
+
+def _prep_side(r, switch=False):
+    """a side branch off c1 with one commit of its own that merges cleanly with master; optionally HEAD on it"""
+    from dulwich import porcelain
+    base = r.refs[b"refs/heads/topic"]
+    t = _tree(r, {b"a": b"one\n" * 20, b"b": b"bee\n", b"side": b"side work\n"})
+    c = _commit(r, t, [base], b"side", 720)
+    r.refs[b"refs/heads/side"] = c
+    if switch:
+        r.refs.set_symbolic_ref(b"HEAD", b"refs/heads/side")
+    porcelain.reset(r, "hard", b"HEAD")
+
+
+PREP = {"del_ref(loose shadows packed)": _prep_shadow, "fetch(deepen a shallow clone)": _prep_shallow,
+        "stash_push": _prep_checkout, "porcelain checkout(branch)": _prep_checkout, "worktree_add": _prep_checkout,
+        "porcelain cherry_pick": _prep_side, "porcelain rebase": lambda r: _prep_side(r, switch=True)}
 # scenarios whose states are judged by the real recovery procedure only (Crash.tla has no shallow boundary)
 REAL_ONLY = {"fetch(deepen a shallow clone)", "lfs_store_write"}
 
@@ -763,7 +866,10 @@ def run(ctx):
     S = scenarios()
     layouts = ["loose", "packed", "mixed"]
     plan = []
+    _only = os.environ.get("VERIF_C09_ONLY")   # development aid: substring filter on scenario names (never set by MANIFEST commands)
     for name in S:
+        if _only and _only not in name:
+            continue
         for layout in layouts:
             for fsync in (False, True):
                 if ctx.quick:
